@@ -1,11 +1,233 @@
-/- C06 — executable model (stub; filled in by the property's owner). -/
+/-
+C06 — convolve / convolve1d / gaussian_filter
+(`_convolve.cpp`: `convolve<T>`, `convolve1d<T>`; `convolve.py`: `convolve`, `convolve1d`,
+`gaussian_filter1d`, `gaussian_filter`).
+
+The numeric kernels are written once, polymorphic in `[Add α] [Mul α] [Zero α]`: the driver runs
+them at `Float` (bit-exact with the C++ `double` accumulation: SSE2, no contraction), the theorems
+in `Properties/C06.lean` are about the same definitions over any commutative semiring.
+-/
 import Mahotas.Model.Border
 import Mahotas.Model.DType
 namespace Mahotas.C06
 open Mahotas
 
+section kernels
+variable {α : Type} [Add α] [Mul α] [Zero α]
+
+/-! ### generic n-D kernel `convolve<T>` -/
+
+/-- the kernel position `i` (C order) as an offset from the centre `shape/2` -/
+def offsetOf (wshape : List Nat) (i : Nat) : List Int :=
+  subPos (unravelI wshape i) (centreOf wshape)
+
+/-- the filter as `filter_iterator(array, filter, mode, compress=true)` presents it: the non-zero
+    weights in C order with their offsets `j − c`. -/
+def support (isZero : α → Bool) (wshape : List Nat) (w : Array α) : List (List Int × α) :=
+  (List.range (shapeSize wshape)).filterMap fun i =>
+    let x := w.getD i 0
+    if isZero x then none else some (offsetOf wshape i, x)
+
+/-- `fiter.retrieve`: the sample at a possibly outside position, through `fix_offset` on every axis;
+    `none` = `border_flag_value` (constant / ignore). -/
+def sample (m : Mode) (f : Img α) (p : List Int) : Option α :=
+  match fixPos m f.shape p with
+  | some q => some (f.getD q 0)
+  | none => none
+
+/-- the accumulator `cur` of `convolve<T>` at pixel `p`: footprint order, flagged samples skipped. -/
+def convAcc (m : Mode) (f : Img α) (sup : List (List Int × α)) (p : List Int) : α :=
+  sup.foldl (fun cur kw =>
+    match sample m f (addPos p kw.1) with
+    | some v => cur + v * kw.2
+    | none => cur) 0
+
+/-! ### specification: the defining sum -/
+
+/-- the sample the statement prescribes: `f` at the position the border rule selects; an
+    out-of-image sample contributes 0 in `constant` (cval = 0) and is dropped in `ignore`. -/
+def specSample (m : Mode) (f : Img α) (p : List Int) : α :=
+  match specPos m f.shape p with
+  | some q => f.getD q 0
+  | none => 0
+
+/-- `Σ_j w[j] · f[border(p + j − c)]`, `c = shape(w)/2`, over *all* kernel positions. -/
+def convSpec (m : Mode) (f : Img α) (wshape : List Nat) (w : Array α) (p : List Int) : α :=
+  ((List.range (shapeSize wshape)).map fun i =>
+    w.getD i 0 * specSample m f (addPos p (offsetOf wshape i))).sum
+
+/-! ### the row-wise fast path `convolve1d<T>` (2-D C-array view `[N0, N1]`, filter along axis 1) -/
+
+/-- interior loop body: direct reads `base0[x + j − c]`, every weight (zeros included). -/
+def fastInterior (f : Img α) (w : Array α) (y x : Nat) : α :=
+  (List.range w.size).foldl (fun cur (j : Nat) =>
+    cur + f.getD [(y : Int), (x : Int) + (j : Int) - ((w.size / 2 : Nat) : Int)] 0 * w.getD j 0) 0
+
+/-- border loop body: offsets through `fix_offset(mode, x + j − c, N1)`; a flagged sample reads as 0. -/
+def fastBorder (m : Mode) (f : Img α) (w : Array α) (N1 : Nat) (y x : Nat) : α :=
+  (List.range w.size).foldl (fun cur (j : Nat) =>
+    cur + (match fixOffset m ((x : Int) + (j : Int) - ((w.size / 2 : Nat) : Int)) N1 with
+           | some o => f.getD [(y : Int), o] 0
+           | none => 0) * w.getD j 0) 0
+
+/-- `x = (x_ < centre ? x_ : (N1 − 1) − (x_ − centre))` -/
+def borderX (c N1 x_ : Nat) : Nat := if x_ < c then x_ else (N1 - 1) - (x_ - c)
+
+/-- the columns written by the interior loop `for (x = c; x != N1 − c; ++x)` (guarded by `c < N1`) -/
+def interiorXs (Nf N1 : Nat) : List Nat :=
+  if Nf / 2 ≥ N1 then [] else List.range' (Nf / 2) (N1 - Nf / 2 - Nf / 2)
+
+/-- the columns written by the border loop `for (x_ = 0; x_ != 2c && x_ < N1; ++x_)` -/
+def borderXs (Nf N1 : Nat) : List Nat :=
+  (List.range (min (2 * (Nf / 2)) N1)).map (borderX (Nf / 2) N1)
+
+/-- all columns written for one row, in program order -/
+def fastXs (Nf N1 : Nat) : List Nat := interiorXs Nf N1 ++ borderXs Nf N1
+
+/-- the writes `(y, x, cur)` of `convolve1d<T>` in program order -/
+def fastWrites (m : Mode) (f : Img α) (w : Array α) (N0 N1 : Nat) : List (Nat × Nat × α) :=
+  ((List.range N0).flatMap fun y => (interiorXs w.size N1).map fun x => (y, x, fastInterior f w y x)) ++
+  ((borderXs w.size N1).flatMap fun x => (List.range N0).map fun y => (y, x, fastBorder m f w N1 y x))
+
+/-- the output buffer after the writes (`none` = never written) -/
+def applyWrites {β : Type} (N0 N1 : Nat) (ws : List (Nat × Nat × β)) : Array (Option β) :=
+  ws.foldl (fun out (t : Nat × Nat × β) => out.setIfInBounds (t.1 * N1 + t.2.1) (some t.2.2))
+    (Array.replicate (N0 * N1) none)
+
+/-! ### `convolve1d` (Python): path choice and the transposition / reshape glue -/
+
+/-- replace coordinate `axis` of a position -/
+def setAxis : List Int → Nat → Int → List Int
+  | [], _, _ => []
+  | _ :: ps, 0, v => v :: ps
+  | p :: ps, a + 1, v => p :: setAxis ps a v
+
+/-- the row of the `(-1, N)` view that contains pixel `p`: `f.transpose(others + [axis]).reshape(-1, N)`
+    read at the logical level, as a `[1, N]` image -/
+def lineThrough (f : Img α) (axis : Nat) (p : List Int) : Img α :=
+  let N1 := f.shape.getD axis 1
+  { shape := [1, N1], data := ((List.range N1).map fun (x : Nat) => f.getD (setAxis p axis (x : Int)) 0).toArray }
+
+/-- kernel shape `[1,…,Nf,…,1]` (`weights[None,…,:,…,None]`) -/
+def embedShape (ndim axis Nf : Nat) : List Nat :=
+  (List.range ndim).map fun d => if d = axis then Nf else 1
+
+/-- value the fast path leaves at pixel `p` (accumulator, before the cast) -/
+def fastAt (m : Mode) (f : Img α) (axis : Nat) (w : Array α) (p : List Int) : α :=
+  let N1 := f.shape.getD axis 1
+  let line := lineThrough f axis p
+  let x := (p.getD axis 0).toNat
+  if (interiorXs w.size N1).contains x then fastInterior line w 0 x else fastBorder m line w N1 0 x
+
+end kernels
+
+/-! ### Float instantiation: dtype casts, Gaussian weights, driver -/
+
+/-- C++ `T(cur)` / numpy `astype` for the value ranges the check uses (results inside the dtype range):
+    f64 identity, f32 rounding, integers truncation toward zero, bool `!= 0`. -/
+def castTo (dt : String) (x : Float) : Float :=
+  match dt with
+  | "f64" => x
+  | "f32" => x.toFloat32.toFloat
+  | "b1" => if x == 0 then 0 else 1
+  | _ => if x < 0 then x.ceil else x.floor
+
+def fIsZero (x : Float) : Bool := x == 0
+
+def mkImg (shape : List Nat) (xs : List Float) : Img Float := { shape := shape, data := xs.toArray }
+
+/-- `convolve(f, w, mode)`: weights cast to `f.dtype`, generic kernel, cast of the accumulator -/
+def convolveModel (dt : String) (m : Mode) (f : Img Float) (wshape : List Nat) (w : Array Float) : List Float :=
+  let wc := w.map (castTo dt)
+  let sup := support fIsZero wshape wc
+  (allPos f.shape).map fun p => castTo dt (convAcc m f sup p)
+
+def convolveSpec (dt : String) (m : Mode) (f : Img Float) (wshape : List Nat) (w : Array Float) : List Float :=
+  let wc := w.map (castTo dt)
+  (allPos f.shape).map fun p => castTo dt (convSpec m f wshape wc p)
+
+/-- normalised axis (`_get_axis`) -/
+def normAxis (ndim : Nat) (axis : Int) : Nat := (if axis < 0 then axis + ndim else axis).toNat
+
+/-- `convolve1d(f, w, axis, mode)`: Python path choice `f.flags.contiguous and len(w) < f.shape[axis]`;
+    both paths see the weights cast to `f.dtype` (the fast path then widens them to double). -/
+def convolve1dModel (dt : String) (m : Mode) (f : Img Float) (contig : Bool) (axis : Nat) (w : Array Float) :
+    List Float × Bool :=
+  let wc := w.map (castTo dt)
+  let N1 := f.shape.getD axis 1
+  if contig && decide (w.size < N1) then
+    ((allPos f.shape).map fun p => castTo dt (fastAt m f axis wc p), true)
+  else
+    let sup := support fIsZero (embedShape f.shape.length axis w.size) wc
+    ((allPos f.shape).map fun p => castTo dt (convAcc m f sup p), false)
+
+def convolve1dSpec (dt : String) (m : Mode) (f : Img Float) (axis : Nat) (w : Array Float) : List Float :=
+  convolveSpec dt m f (embedShape f.shape.length axis w.size) w
+
+/-- `gaussian_filter1d` weights: `lw = int(4σ + 0.5)`, normalised samples of `exp(−x²/2σ²)`,
+    derivative polynomials, odd orders flipped (the kernel is applied by correlation). -/
+def gaussWeights (sigma : Float) (order : Nat) : Array Float :=
+  let s2 := sigma * sigma
+  let lw := (4.0 * sigma + 0.5).floor.toUInt64.toNat
+  let xs := (List.range (2 * lw + 1)).map fun i => Float.ofNat i - Float.ofNat lw
+  let g := xs.map fun x => Float.exp (x * x / (-2.0 * s2))
+  let tot := g.foldl (· + ·) 0
+  let g := g.map (· / tot)
+  let ws := (List.zip xs g).map fun (x, v) =>
+    match order with
+    | 0 => v
+    | 1 => v * (-x / s2)
+    | 2 => v * ((x * x / s2 - 1.0) / s2)
+    | _ => v * ((3.0 - x * x / s2) * x / (s2 * s2))
+  (if order % 2 == 1 then ws.reverse else ws).toArray
+
+/-- `gaussian_filter`: successive `gaussian_filter1d` along axes 0, 1, …; every pass stores in `dt`. -/
+def gaussianFilterModel (dt : String) (m : Mode) (f : Img Float) (contig : Bool)
+    (sigmas : List Float) (orders : List Nat) : List Float :=
+  let step := fun (cur : Img Float) (ax : Nat) =>
+    let w := gaussWeights (sigmas.getD ax 1.0) (orders.getD ax 0)
+    -- the first pass reads a C-contiguous copy (`output[...] = array`), so every pass can take the fast path
+    mkImg f.shape (convolve1dModel dt m cur true ax w).1
+  let _ := contig
+  ((List.range f.shape.length).foldl step f).data.toList
+
+def modeOf (a : Args) : Mode := (Mode.ofCode (a.nat "mode")).getD .reflect
+
 def handle (a : Args) : String :=
+  let dt := a.str "dt"
+  let shape := a.nats "shape"
+  let f := mkImg shape (a.floats "data")
+  let m := modeOf a
   match a.str "kind" with
+  | "convolve" =>
+    let wshape := a.nats "wshape"
+    let w := (a.floats "w").toArray
+    s!"spec={showFloats (convolveSpec dt m f wshape w)} model={showFloats (convolveModel dt m f wshape w)}"
+  | "convolve1d" =>
+    let w := (a.floats "w").toArray
+    let axis := normAxis shape.length (a.int "axis")
+    let (model, fast) := convolve1dModel dt m f (a.nat "contig" == 1) axis w
+    s!"spec={showFloats (convolve1dSpec dt m f axis w)} model={showFloats model} path={if fast then "fast" else "generic"}"
+  | "fastwrites" =>
+    -- the raw write sequence of the fast path on a 2-D image (columns per row, coverage)
+    let w := (a.floats "w").toArray
+    let N0 := shape.getD 0 0
+    let N1 := shape.getD 1 0
+    let out := applyWrites N0 N1 (fastWrites m f w N0 N1)
+    let xs := fastXs w.size N1
+    let vals := out.toList.map fun | some v => castTo dt v | none => 0
+    s!"xs={showNats xs} unwritten={(out.toList.filter Option.isNone).length} out={showFloats vals}"
+  | "gaussw" =>
+    s!"w={showFloats (gaussWeights ((a.floats "sigma").headD 1.0) (a.nat "order")).toList}"
+  | "gaussian1d" =>
+    let w := gaussWeights ((a.floats "sigma").headD 1.0) (a.nat "order")
+    let axis := normAxis shape.length (a.int "axis")
+    let (model, fast) := convolve1dModel dt m f (a.nat "contig" == 1) axis w
+    s!"model={showFloats model} path={if fast then "fast" else "generic"}"
+  | "gaussian" =>
+    let sig := a.floats "sigma"
+    let ord := a.nats "order"
+    s!"model={showFloats (gaussianFilterModel dt m f true sig ord)}"
   | k => s!"error=unknown-kind-{k}"
 
 end Mahotas.C06
